@@ -308,14 +308,15 @@ async def _min_max(
             return default
         elif key is None:
             async for item in item_iter:
-                if invert ^ (item < best):
+                # strict comparison in either direction: the first of equal items wins
+                if (best < item) if invert else (item < best):
                     best = item
         else:
             key = _awaitify(key)
             best_key = await key(best)
             async for item in item_iter:
                 item_key = await key(item)
-                if invert ^ (item_key < best_key):
+                if (best_key < item_key) if invert else (item_key < best_key):
                     best = item
                     best_key = item_key
     return best
